@@ -431,6 +431,28 @@ fn build_cases(kinds: &[&'static str], l1: usize, l23: usize, long: bool, aligns
                         cases.push(Case { kind, nd, hay, align: a, positions: positions(k, nd, hay) });
                     }
                 }
+                if len == 300 {
+                    // every subset of 2..=4 positions of a coarse grid over a
+                    // 600-byte haystack: long steps between matches, several
+                    // matches left in a long window
+                    let grid = [3usize, 140, 150, 290, 300, 440, 450, 590];
+                    for mask in 0u32..256 {
+                        let n = mask.count_ones();
+                        if !(2..=4).contains(&n) {
+                            continue;
+                        }
+                        let mut data = vec![other; 600];
+                        let mut j = 0;
+                        for (gi, &p) in grid.iter().enumerate() {
+                            if mask >> gi & 1 == 1 {
+                                data[p] = nd[j % k];
+                                j += 1;
+                            }
+                        }
+                        let hay = crate::leak_placed(&data, 7, nd[0]);
+                        cases.push(Case { kind, nd, hay, align: 7, positions: positions(k, nd, hay) });
+                    }
+                }
                 if len <= 70 {
                     // dense: every byte matches (k+1)(k+2)/2 ~ 2556 states
                     let data: Vec<u8> = (0..len).map(|i| nd[i % k]).collect();
